@@ -113,5 +113,14 @@ claim("C10", "Lean 4 theorems about loop bodies regenerated from the source (py2
       _TB + " lax.while_loop / lax.scan and the glue of _bisection_search are hand-modelled (Model/Bisection.lean) and validated by that correspondence; float "
       "resolution at the root's magnitude is outside the theorems.", "DESIGN.md §5 C10")
 
-for _p in ["C02","C04","C06","C14","C15","C16","C17","C18"]:
+claim("C18", "Lean 4 theorems about a reverse-mode (vjp) model over ASTs regenerated from the source, on reals extended by ±inf/NaN; the same interpreter runs at Float against jax.grad",
+      "PARTIAL. For every generated leaf kernel in both directions (Affine, Exp, SoftPlus, Tanh, LeakyTanh, RationalQuadraticSpline; value and log-det) and every real input on the "
+      "kernel's domain — spline interval ends, knots and outside points, LeakyTanh switch points, |y| = 1 — the value is finite and every adjoint w.r.t. the input and every parameter is "
+      "finite for every finite cotangent (Safe => finite, proved once for the interpreter; Safe proved per kernel for all valid parameters); finiteness composes through layers and "
+      "through log_prob = base + log-det; the public log_prob is never NaN. The AST is regenerated from /repo each run and the interpreter's Float instance is compared with jax.grad "
+      "(value and every adjoint) on the boundary-directed set.",
+      _TB + " Model/Ad.lean's cotangent rules are a hand model of JAX autodiff (validated, not proved); EF has exact finite arithmetic: overflow (exp of large arguments), rounding "
+      "and signed zeros are outside the model and covered by the correspondence/oracle only; network conditioners and whole factories are covered by the oracle only.", "DESIGN.md §5 C18")
+
+for _p in ["C02","C04","C06","C14","C15","C16","C17"]:
     NOT_YET[_p] = "not yet built in this round: theorems and correspondence under construction (see DESIGN.md §8); never claimed on the strength of the harness alone"
